@@ -14,14 +14,6 @@ def fin (x : St × R Bool) : St × R Unit :=
   | (s, .halt) => (s, .halt)
   | (s, .ok _) => (s, .ok ())
 
-/-- what the loop does with the value of `read()` (then `check()`, then the next iteration) -/
-def afterRead (c : Cfg) (n : Nat) (x : St × R Bool) : St × R Unit :=
-  match x with
-  | (s', .exc x) => (s', .exc x)
-  | (s', .halt) => (s', .halt)
-  | (s', .ok false) => (s', .ok ())
-  | (s', .ok true) => if checkFails c s' then (s', .exc .timeout) else dispLoop c n s'
-
 /-- idle iterations until the next event is within one select timeout -/
 theorem dispLoop_idle_until (c : Cfg) (hT : 0 < selectTimeout c) :
     ∀ (n : Nat) (s : St) (e : TEv) (rest : List TEv) (k : Nat), Up s → s.evs = e :: rest →
@@ -65,8 +57,8 @@ theorem read_ready (c : Cfg) (s : St) (e : TEv) (rest : List TEv) (w : WSock) (h
 /-- one iteration of the loop on an event that is due within the timeout -/
 theorem dispLoop_ready_step (c : Cfg) (n : Nat) (s : St) (e : TEv) (rest : List TEv) (hu : Up s)
     (h : s.evs = e :: rest) (hsoon : s.arr + e.dt ≤ s.now + selectTimeout c) (hz : s.arr + e.dt ≤ c.horizon) :
-    dispLoop c (n + 1) s = afterRead c n (readEvents c (e :: rest) { s with now := max s.now (s.arr + e.dt) }) := by
-  unfold afterRead
+    dispLoop c (n + 1) s =
+      afterRead c (dispLoop c n) (readEvents c (e :: rest) { s with now := max s.now (s.arr + e.dt) }) := by
   rw [dispLoop]
   have h1 : (!s.keepRunning) = false := by simp [hu.kr]
   have h2 : (c.ssl && s.sock.isNone) = false := by simp [up_sock_not_none hu]
@@ -77,11 +69,6 @@ theorem dispLoop_ready_step (c : Cfg) (n : Nat) (s : St) (e : TEv) (rest : List 
   obtain ⟨w, hs, _⟩ := hu.sk
   rw [read_ready c { s with now := max s.now (s.arr + e.dt) } e rest w (by simpa using hu.kr) (by simpa using hs)
     (by simpa using h)]
-  rcases readEvents c (e :: rest) { s with now := max s.now (s.arr + e.dt) } with ⟨s', r⟩
-  cases r with
-  | exc x => rfl
-  | halt => rfl
-  | ok b => cases b <;> rfl
 
 end WS.Lemmas.App
 
@@ -89,7 +76,7 @@ namespace WS.Lemmas.App
 open WS WS.Model.App
 
 /-- the rest of `run_forever` (first connection, reconnect off) once the dispatcher loop has returned -/
-def finishRun (c : Cfg) (x : St × R Unit) : St :=
+def finishRunO (c : Cfg) (x : St × R Unit) : St × Outcome :=
   let y := match x with
     | (s, .exc e) => handleDisconnect c s e false
     | r => r
@@ -102,9 +89,11 @@ def finishRun (c : Cfg) (x : St × R Unit) : St :=
       | r => r
     | (s, .ok ()) => teardown c s none
   match z with
-  | (s, .ok ()) => s.emit (.returned s.hasErrored)
-  | (s, .exc e) => s.emit (.raisedOut e)
-  | (s, .halt) => s
+  | (s, .ok ()) => (s.emit (.returned s.hasErrored), .returned s.hasErrored)
+  | (s, .exc e) => (s.emit (.raisedOut e), .raised e)
+  | (s, .halt) => (s, .cut)
+
+def finishRun (c : Cfg) (x : St × R Unit) : St := (finishRunO c x).1
 
 /-- state in which the dispatcher loop is entered on the first connection -/
 def enterLoop (c : Cfg) (s0 : St) (evs : List TEv) (ds : List Dial) : St :=
@@ -119,13 +108,13 @@ theorem runForever_reduce (c : Cfg) (hq : Quiet c) (s0 : St) (evs : List TEv) (d
     (hacc : argsAccepted c.iv c.to = true) (hs : s0.sock = none) (hiv : c.iv = 0) (hrc : c.reconnect = 0)
     (hd : s0.dials = .established evs :: ds) :
     runForever c s0 = finishRun c (dispLoop c c.fuel (enterLoop c s0 evs ds)) := by
-  unfold runForever
+  unfold runForever runForeverO
   simp only [hacc, hs, Bool.not_true, Bool.false_eq_true, ↓reduceIte, Option.isSome_none]
-  unfold runBody setSock connect
+  unfold runBody firstStage afterBody setSock connect prologue
   simp only [hd, hiv, hrc, gen_resets, gen_finally]
   simp only [Bool.false_eq_true, ↓reduceIte, ne_eq, not_true_eq_false, St.emit, Bool.false_and]
   rw [callback_quiet c hq]
-  simp only [finishRun, enterLoop]
+  simp only [finishRun, finishRunO, enterLoop]
   simp only [List.append_assoc]
   rcases dispLoop c c.fuel _ with ⟨s, r⟩
   cases r with
@@ -163,7 +152,7 @@ theorem end_eof (c : Cfg) (hq : Quiet c) (hrc : c.reconnect = 0) (s : St) (te : 
       s.trace ++ [(s.now, .sockClosed w.idx)] ++ cbTrace c s.calls s.now .onError [.exn .closed] ++
         cbTrace c (cbCalls c s.calls .onError) s.now .onClose [.none, .none] ++ [(s.now, .returned true)] := by
   obtain ⟨kr, sk, wo, wd, wc, pg, hdt, he, evs, arrived⟩ := h
-  simp only [readEvents, arrived, ↓reduceIte, hk, fin, finishRun, closeTransport, sk, wo, handleDisconnect, afterReport,
+  simp only [readEvents, handleEv, asRead, arrived, ↓reduceIte, hk, fin, finishRun, finishRunO, closeTransport, sk, wo, handleDisconnect, afterReport,
     gen_dcErr, gen_dcStops, stopPing, pg, St.emit, Bool.not_false, callback_quiet c hq, hrc, teardown, gen_guard,
     hdt, gen_tdStops, wsClose, dropSock, closeArgs, reduceCtorEq, ne_eq, not_true_eq_false,
     Bool.and_false, Bool.false_eq_true, Bool.not_true]
@@ -180,7 +169,7 @@ theorem end_close (c : Cfg) (hq : Quiet c) (s : St) (te : TEv) (w : WSock) (body
       s.trace ++ [(s.now, .wrote Gen.opcodeClose (beN 2 Gen.statusNormal)), (s.now, .sockDropped w.idx)] ++
         cbTrace c s.calls s.now .onClose (closeArgs c (some body)) ++ [(s.now, .returned false)] := by
   obtain ⟨kr, sk, wo, wd, wc, pg, hdt, he, evs, arrived⟩ := h
-  simp only [readEvents, arrived, ↓reduceIte, hk, fin, finishRun, sk, Option.map_some, St.writable, wo, wd,
+  simp only [readEvents, handleEv, asRead, arrived, ↓reduceIte, hk, fin, finishRun, finishRunO, sk, Option.map_some, St.writable, wo, wd,
     Bool.not_false, Bool.and_self, St.emit, gen_closeToTeardown, teardown, gen_guard, hdt, Bool.and_false,
     Bool.false_eq_true, gen_tdStops, stopPing, pg, wsClose, Bool.not_true, dropSock, callback_quiet c hq, he]
   simp [List.append_assoc]
@@ -191,7 +180,7 @@ theorem end_reset (c : Cfg) (hq : Quiet c) (hrc : c.reconnect = 0) (s : St) (te 
       s.trace ++ cbTrace c s.calls s.now .onError [.exn .transport] ++ [(s.now, .sockClosed w.idx)] ++
         cbTrace c (cbCalls c s.calls .onError) s.now .onClose [.none, .none] ++ [(s.now, .returned true)] := by
   obtain ⟨kr, sk, wo, wd, wc, pg, hdt, he, evs, arrived⟩ := h
-  simp only [readEvents, arrived, ↓reduceIte, hk, fin, finishRun, sk, Option.map_some, handleDisconnect, afterReport,
+  simp only [readEvents, handleEv, asRead, arrived, ↓reduceIte, hk, fin, finishRun, finishRunO, sk, Option.map_some, handleDisconnect, afterReport,
     gen_dcErr, gen_dcStops, stopPing, pg, St.emit, Bool.not_false, callback_quiet c hq, hrc, teardown, gen_guard,
     hdt, gen_tdStops, wsClose, wc, St.writable, wo, Bool.not_true, Bool.and_false, closeTransport, dropSock,
     closeArgs, reduceCtorEq, ne_eq, not_true_eq_false, Bool.false_eq_true]
@@ -214,7 +203,7 @@ theorem end_error (c : Cfg) (hq : Quiet c) (hrc : c.reconnect = 0) (s : St) (te 
   have hm : max s.now (s.now + secs Gen.closeTimeoutDefault) = s.now + secs Gen.closeTimeoutDefault := by omega
   have hxk : x ≠ .ki := by rcases hk with ⟨_, rfl⟩ | ⟨_, rfl⟩ <;> simp
   rcases hk with ⟨hk, rfl⟩ | ⟨hk, rfl⟩ <;>
-  · simp only [readEvents, arrived, ↓reduceIte, hk, fin, finishRun, handleDisconnect, afterReport,
+  · simp only [readEvents, handleEv, asRead, arrived, ↓reduceIte, hk, fin, finishRun, finishRunO, handleDisconnect, afterReport,
       gen_dcErr, gen_dcStops, stopPing, pg, St.emit, Bool.not_false, callback_quiet c hq, hrc, teardown, gen_guard,
       hdt, gen_tdStops, wsClose, sk, wc, St.writable, wo, wd, Bool.not_true, Bool.and_false, Bool.and_self,
       closeWait, hlt, reduceCtorEq, ne_eq, not_true_eq_false, Bool.false_eq_true]
@@ -222,5 +211,76 @@ theorem end_error (c : Cfg) (hq : Quiet c) (hrc : c.reconnect = 0) (s : St) (te 
     simp only [hm, Bool.not_true, Bool.false_eq_true, ↓reduceIte, closeTransport, St.emit, dropSock, closeArgs,
       callback_quiet c hq]
     simp [List.append_assoc]
+
+end WS.Lemmas.App
+
+namespace WS.Lemmas.App
+open WS WS.Model.App
+
+theorem runForeverO_reduce (c : Cfg) (hq : Quiet c) (s0 : St) (evs : List TEv) (ds : List Dial)
+    (hacc : argsAccepted c.iv c.to = true) (hs : s0.sock = none) (hiv : c.iv = 0) (hrc : c.reconnect = 0)
+    (hd : s0.dials = .established evs :: ds) :
+    runForeverO c s0 = finishRunO c (dispLoop c c.fuel (enterLoop c s0 evs ds)) := by
+  unfold runForeverO
+  simp only [hacc, hs, Bool.not_true, Bool.false_eq_true, ↓reduceIte, Option.isSome_none]
+  unfold runBody firstStage afterBody setSock connect prologue
+  simp only [hd, hiv, hrc, gen_resets, gen_finally]
+  simp only [Bool.false_eq_true, ↓reduceIte, ne_eq, not_true_eq_false, St.emit, Bool.false_and]
+  rw [callback_quiet c hq]
+  simp only [finishRunO, enterLoop]
+  simp only [List.append_assoc]
+  rcases dispLoop c c.fuel _ with ⟨s, r⟩
+  cases r with
+  | halt => rfl
+  | ok u => cases u; rfl
+  | exc e =>
+    simp only []
+    rcases handleDisconnect c s e false with ⟨s', r'⟩
+    cases r' with
+    | halt => rfl
+    | ok u => cases u; rfl
+    | exc e' => rfl
+
+/-- outcome of the run for each kind of terminating event -/
+theorem end_outcome (c : Cfg) (hq : Quiet c) (hrc : c.reconnect = 0) (s : St) (te : TEv) (w : WSock)
+    (h : AtTerm s te w) (hterm : te.ev = .eof ∨ te.ev = .reset ∨ te.ev = .protoError ∨ te.ev = .payloadError ∨ ∃ b, te.ev = .close b)
+    (hz : s.now + secs Gen.closeTimeoutDefault ≤ c.horizon) :
+    (finishRunO c (fin (readEvents c [te] s))).2 = .returned (match te.ev with | .close _ => false | _ => true) := by
+  obtain ⟨kr, sk, wo, wd, wc, pg, hdt, he, evs, arrived⟩ := h
+  have hlt : s.now - s.now < secs Gen.closeTimeoutDefault := by
+    have : 0 < secs Gen.closeTimeoutDefault := by decide
+    omega
+  rcases hterm with hk | hk | hk | hk | ⟨b, hk⟩
+  · simp only [readEvents, handleEv, asRead, arrived, ↓reduceIte, hk, fin, finishRunO, closeTransport, sk, wo,
+      handleDisconnect, afterReport, gen_dcErr, gen_dcStops, stopPing, pg, St.emit, Bool.not_false,
+      callback_quiet c hq, hrc, teardown, gen_guard, hdt, gen_tdStops, wsClose, dropSock, closeArgs, reduceCtorEq,
+      ne_eq, not_true_eq_false, Bool.and_false, Bool.false_eq_true, Bool.not_true]
+    simp
+  · simp only [readEvents, handleEv, asRead, arrived, ↓reduceIte, hk, fin, finishRunO, sk, Option.map_some,
+      handleDisconnect, afterReport, gen_dcErr, gen_dcStops, stopPing, pg, St.emit, Bool.not_false,
+      callback_quiet c hq, hrc, teardown, gen_guard, hdt, gen_tdStops, wsClose, wc, St.writable, wo, Bool.not_true,
+      Bool.and_false, closeTransport, dropSock, closeArgs, reduceCtorEq, ne_eq, not_true_eq_false,
+      Bool.false_eq_true]
+    simp
+  · simp only [readEvents, handleEv, asRead, arrived, ↓reduceIte, hk, fin, finishRunO, handleDisconnect, afterReport,
+      gen_dcErr, gen_dcStops, stopPing, pg, St.emit, Bool.not_false, callback_quiet c hq, hrc, teardown, gen_guard,
+      hdt, gen_tdStops, wsClose, sk, wc, St.writable, wo, wd, Bool.not_true, Bool.and_false, Bool.and_self,
+      closeWait, hlt, reduceCtorEq, ne_eq, not_true_eq_false, Bool.false_eq_true]
+    rw [waitUntil_none c _ _ (by simpa using pg) (by simpa using hz)]
+    simp only [Bool.not_true, Bool.false_eq_true, ↓reduceIte, closeTransport, St.emit, dropSock, closeArgs,
+      callback_quiet c hq]
+    simp
+  · simp only [readEvents, handleEv, asRead, arrived, ↓reduceIte, hk, fin, finishRunO, handleDisconnect, afterReport,
+      gen_dcErr, gen_dcStops, stopPing, pg, St.emit, Bool.not_false, callback_quiet c hq, hrc, teardown, gen_guard,
+      hdt, gen_tdStops, wsClose, sk, wc, St.writable, wo, wd, Bool.not_true, Bool.and_false, Bool.and_self,
+      closeWait, hlt, reduceCtorEq, ne_eq, not_true_eq_false, Bool.false_eq_true]
+    rw [waitUntil_none c _ _ (by simpa using pg) (by simpa using hz)]
+    simp only [Bool.not_true, Bool.false_eq_true, ↓reduceIte, closeTransport, St.emit, dropSock, closeArgs,
+      callback_quiet c hq]
+    simp
+  · simp only [readEvents, handleEv, asRead, arrived, ↓reduceIte, hk, fin, finishRunO, sk, Option.map_some,
+      St.writable, wo, wd, Bool.not_false, Bool.and_self, St.emit, gen_closeToTeardown, teardown, gen_guard, hdt,
+      Bool.and_false, Bool.false_eq_true, gen_tdStops, stopPing, pg, wsClose, Bool.not_true, dropSock,
+      callback_quiet c hq, he]
 
 end WS.Lemmas.App
